@@ -970,3 +970,166 @@ def spell_cases(jobs):
         else:
             out.append({"id": job["id"], "s1": job["s1"], "s2": job["s2"], "ctxs": ctxs})
     return out
+
+
+# ---------------------------------------------------------------------------
+# C10: value-dependent methods
+# ---------------------------------------------------------------------------
+def dep_cases(jobs):
+    """job = {id, methods, calls:[[value names]]}"""
+    import linecache
+
+    from . import deprt
+    from .observe import classify, describe
+
+    out = []
+    for job in jobs:
+        vw = deprt.ValueWorld()
+        try:
+            ov = vw.build(job["methods"])
+        except Exception as e:
+            out.append({"id": job["id"], "skip": f"{type(e).__name__}: {e}"})
+            continue
+        steps = []
+        for names in job["calls"]:
+            args = [vw.objs[n] for n in names]
+            call = {"pos": [deprt.arg_record(n) for n in names], "kwn": [], "kwa": []}
+            del vw.log[:]
+            del vw.predlog[:]
+            obs = {"resolve": {"kind": "skip", "m": ""}}
+            try:
+                ov(*args)
+                obs["kind"] = "run"
+            except BaseException as e:  # noqa
+                obs["kind"] = classify(e)
+                obs["err"] = describe(e)
+                e.__traceback__ = None
+            ent = []
+            for j, (mid, a) in enumerate(vw.log):
+                m = next(x for x in job["methods"] if x["id"] == mid)
+                nxt = m.get("body") == "next"
+                c = {"pos": [vw.arg_of(x) for x in a], "kwn": [], "kwa": []}
+                ent.append({"m": mid, "call": c, "next": {"has": nxt, "call": c if nxt else {"pos": [], "kwn": [], "kwa": []}}})
+            obs["entered"] = ent
+            obs["predlog"] = list(vw.predlog)
+            # the emitted dispatcher source (strategy) for the evidence file
+            steps.append({"call": call, "obs": obs})
+        strategies = set()
+        for k, v in linecache.cache.items():
+            if k.startswith("<ovld:"):
+                text = "".join(v[2])
+                if "__DEPENDENT_DISPATCH__" in text:
+                    strategies.add("keyed" if "HANDLER = " in text else ("counting" if "SUMMATION" in text else "exclusive"))
+        vw.cleanup()
+        out.append({"id": job["id"], "props": ["C10"], "world": {"parents": deprt.PARENTS, "methods": job["methods"]},
+                    "steps": steps, "strategies": sorted(strategies)})
+    return out
+
+
+# ---------------------------------------------------------------------------
+# C11: built-in value types
+# ---------------------------------------------------------------------------
+COMPANIONS = ["plain", "lits4", "deps", "overlap", "lits_then_T"]
+
+
+def value_cases(jobs):
+    import linecache
+    import typing
+
+    from ovld import Dependent, Ovld
+    from ovld.dependent import generate_checking_code
+    from ovld.types import normalize_type
+
+    from . import valuniv
+
+    out = []
+    for job in jobs:
+        t = job["t"]
+        try:
+            RT = valuniv.real(t["py"])
+            NT = normalize_type(RT, None)
+        except Exception as e:
+            out.append({"id": job["id"], "skip": f"{type(e).__name__}: {e}"})
+            continue
+
+        def never(x):
+            return False
+
+        def build(comp):
+            ns = {"TT": RT, "Literal": typing.Literal, "Dependent": Dependent, "never": never}
+            src = ["def mo(x: object):\n    return 'O'\n", "def mt(x: TT):\n    return 'T'\n"]
+            order = ["mo", "mt"]
+            if comp in ("lits4", "lits_then_T"):
+                for j in range(4):
+                    src.append(f"def li{j}(x: Literal[{100 + j}]):\n    return 'L'\n")
+                    src.append(f"def ls{j}(x: Literal['zz{j}']):\n    return 'L'\n")
+                    order += [f"li{j}", f"ls{j}"]
+                src.append("def lt(x: Literal[(100,)]):\n    return 'L'\n") if False else None
+                if comp == "lits_then_T":
+                    order = [o for o in order if o != "mt"] + ["mt"]
+            elif comp == "deps":
+                for j, b in enumerate(["int", "str", "tuple", "dict", "object"]):
+                    src.append(f"def dp{j}(x: Dependent[{b}, never]):\n    return 'D'\n")
+                    order.append(f"dp{j}")
+            elif comp == "overlap":
+                src.append("def lo1(x: Literal[100, 101]):\n    return 'L'\n")
+                src.append("def lo2(x: Literal[101, 102]):\n    return 'L'\n")
+                src.append("def lo3(x: Literal['zz0', 'zz1']):\n    return 'L'\n")
+                src.append("def lo4(x: Literal['zz1', 'zz2']):\n    return 'L'\n")
+                order += ["lo1", "lo2", "lo3", "lo4"]
+            code = "\n".join(s for s in src if s)
+            fname = f"<vf:val{id(ns)}>"
+            linecache.cache[fname] = (len(code), None, code.splitlines(True), fname)
+            exec(compile(code, fname, "exec"), ns, ns)
+            ov = Ovld()
+            for name in order:
+                ov.register(ns[name])
+            return ov
+
+        try:
+            ovs = [build(c) for c in COMPANIONS]
+        except Exception as e:
+            out.append({"id": job["id"], "skip": f"build: {type(e).__name__}: {e}"})
+            continue
+        try:
+            cg = generate_checking_code(NT)
+            names = {k: f"S_{k}" for k in cg.substitutions}
+            expr = cg.template.format(arg="ARG", **names)
+            env = {f"S_{k}": v for k, v in cg.substitutions.items()}
+        except Exception:
+            expr = None
+        bound = getattr(NT, "bound", None)
+        steps = []
+        for v in valuniv.CORPUS:
+            try:
+                isinst = bool(isinstance(v, NT))
+            except Exception as e:  # noqa
+                isinst = False
+            emitted = "skip"
+            if expr is not None and (bound is None or isinstance(v, bound)):
+                try:
+                    emitted = "T" if eval(expr, dict(env, ARG=v)) else "F"
+                except Exception:
+                    emitted = "skip" if bound is None else "ERR"
+            disp = []
+            for ov in ovs:
+                try:
+                    disp.append(ov(v))
+                except TypeError as e:
+                    disp.append("AMB" if str(e).startswith("Ambiguous") else "ERR:" + str(e)[:50])
+                except Exception as e:  # noqa
+                    disp.append("ERR:" + type(e).__name__)
+            steps.append({"a": valuniv.arg(v, repr(v)[:20]), "isinst": isinst, "emitted": emitted, "disp": disp})
+        for k in [k for k in linecache.cache if k.startswith("<ovld:") or k.startswith("<vf:")]:
+            del linecache.cache[k]
+
+        def strip(tt):
+            if isinstance(tt, dict):
+                return {k: strip(x) for k, x in tt.items() if k != "py"}
+            if isinstance(tt, list):
+                return [strip(x) for x in tt]
+            return tt
+
+        out.append({"id": job["id"], "world": {"parents": valuniv.PARENTS}, "t": strip(t), "py": t["py"],
+                    "companions": COMPANIONS, "steps": steps})
+    return out
